@@ -3,16 +3,14 @@
    leaf hash, an audit path, the leaf index and the tree size; None when the path length does not
    fit (index, size) or the index is out of range). *)
 From FV Require Import Base.Bytes Base.U64 Base.Map Merkle.RFC6962 Merkle.RFCFacts Merkle.BinaryModel Merkle.BinaryHistory
-     Merkle.VerifyProofs Merkle.ProveProofs.
+     Merkle.VerifyProofs Merkle.ProveProofs Merkle.PositionPathProofs.
 Open Scope N_scope.
 
-(* FULL statement still open for the L1 model (kept as a definition, never as a theorem):
-   the proof produced by the storage-backed tree is the RFC audit path, for every tree below 2^63
-   leaves.  Proved below: for every tree of up to 128 leaves (C10_prove_is_PATH_partial), and for
-   every tree below 2^63 leaves under the computable premise `sides_ok` that the side positions
-   yielded by the position-path iterator are the in-order positions of the RFC sibling ranges
-   (C10_prove_is_PATH_given_sides); that premise is the only part established by computation. *)
-Definition C10_prove_is_PATH_statement : Prop :=
+(* PROVED (L1 prove, in full: every tree of fewer than 2^63 leaves, every index): the proof
+   produced by the storage-backed tree built by pushing the leaves is the RFC tree hash and the RFC
+   audit path.  No computation bound: the side positions of position_path are characterised in
+   general in Merkle/PositionPathProofs.v (C10_sides_all below). *)
+Theorem C10_prove_is_PATH :
   forall (D : Type) (leaf_sum : bytes -> D) (node_sum : D -> D -> D) (empty_sum : D) (ls : list bytes) (i : N),
     lenN ls < 2 ^ 63 -> i < lenN ls ->
     exists t, fold_left (fun ot d => match ot with
@@ -20,6 +18,25 @@ Definition C10_prove_is_PATH_statement : Prop :=
                                      | None => None end) ls (Some tree_new) = Some t /\
               tree_prove node_sum t i =
                 ProveOk (MTH leaf_sum node_sum empty_sum ls) (PATH leaf_sum node_sum empty_sum (N.to_nat i) ls).
+Proof. intros D lf nd e ls i Hb Hi. exact (prove_is_PATH_pushed_all lf nd e ls i Hb Hi). Qed.
+Print Assumptions C10_prove_is_PATH.
+
+(* the same in every state of the tree satisfying the invariant of BinaryHistory.v (any history of
+   pushes / resets / reloads) *)
+Theorem C10_prove_is_PATH_any_state :
+  forall (D : Type) (leaf_sum : bytes -> D) (node_sum : D -> D -> D) (empty_sum : D)
+         (t : tree) (ls : list bytes) (i : N),
+    tinv leaf_sum node_sum empty_sum t ls -> lenN ls < 2 ^ 63 -> i < lenN ls ->
+    tree_prove node_sum t i =
+      ProveOk (MTH leaf_sum node_sum empty_sum ls) (PATH leaf_sum node_sum empty_sum (N.to_nat i) ls).
+Proof. exact @prove_is_PATH. Qed.
+Print Assumptions C10_prove_is_PATH_any_state.
+
+(* the side positions yielded by position_path for (i, count) are the in-order positions of the
+   RFC sibling ranges, for every count below 2^63 (general proof, no computation) *)
+Theorem C10_sides_all : forall c i, c < 2 ^ 63 -> i < c -> sides_ok i c = true.
+Proof. exact sides_ok_all. Qed.
+Print Assumptions C10_sides_all.
 
 (* PROVED (L3 level, all sizes): the RFC audit path of leaf i recomputes the tree hash, i.e. the
    completeness half at the level of the specification. *)
@@ -95,12 +112,12 @@ Proof. exact @prove_is_PATH_given_sides. Qed.
 Print Assumptions C10_prove_is_PATH_given_sides.
 
 (* the premise holds for every leaf of every tree of up to 128 leaves (exhaustive computation,
-   bound in the statement) *)
+   bound in the statement; superseded by C10_sides_all, kept as an independent check) *)
 Theorem C10_sides_checked : forall c i, c <= 128 -> i < c -> sides_ok i c = true.
 Proof. exact sides_ok_128. Qed.
 Print Assumptions C10_sides_checked.
 
-(* PARTIAL version of C10_prove_is_PATH_statement: the same statement for trees of up to 128 leaves *)
+(* earlier PARTIAL version of C10_prove_is_PATH (trees of up to 128 leaves, sides checked by computation), kept *)
 Theorem C10_prove_is_PATH_partial :
   forall (D : Type) (leaf_sum : bytes -> D) (node_sum : D -> D -> D) (empty_sum : D) (ls : list bytes) (i : N),
     lenN ls <= 128 -> i < lenN ls ->
